@@ -203,24 +203,31 @@ class DWorld(tr.World):
         w = self
 
         async def dfn(stopped: Any, **_: Any) -> None:
-            assert w.release_evt is not None and w.never is not None
-            rel = w.release_evt
+            assert w.never is not None
+            rel = asyncio.Event()
             w.starts += 1
-            if w.behaviour == 'obedient':
-                await stopped.wait()
-            elif w.behaviour == 'late':
-                await stopped.wait()
-                await rel.wait()
-            elif w.behaviour == 'cancellable':
-                await w.never.wait()
-            elif w.behaviour == 'stubborn':
-                while not rel.is_set():
-                    try:
-                        await rel.wait()
-                    except asyncio.CancelledError:
-                        w.swallowed += 1
-            else:
-                await rel.wait()
+            # the harness's own registry of the daemon invocations the framework started, and of their exits
+            inv = {'n': w.starts, 'rel': rel, 'stopped': stopped, 'started': w.loop.time(), 'exited': None, 'flag_at': None}
+            w.invs.append(inv)
+            try:
+                if w.behaviour == 'obedient':
+                    await stopped.wait()
+                elif w.behaviour == 'late':
+                    await stopped.wait()
+                    await rel.wait()
+                elif w.behaviour == 'cancellable':
+                    await w.never.wait()
+                elif w.behaviour == 'stubborn':
+                    while not rel.is_set():
+                        try:
+                            await rel.wait()
+                        except asyncio.CancelledError:
+                            w.swallowed += 1
+                else:
+                    await rel.wait()
+            finally:
+                inv['exited'] = w.loop.time()
+        self.invs: list[dict] = []
         self.starts = 0
         self.swallowed = 0
         env.kopf.daemon('kopfexamples', registry=self.reg, id='d', cancellation_backoff=self.backoff,
@@ -293,8 +300,14 @@ class DWorld(tr.World):
     def after_cycle_run(self) -> None:
         pre = self.pre
         d = self.daemon()
+        now = self.loop.time()
+        for inv in self.invs:             # when did each invocation get ITS stop request (its own `stopped` kwarg)
+            if inv['flag_at'] is None and inv['exited'] is None and bool(inv['stopped']):
+                inv['flag_at'] = now
         self.write_extra = {'daemon_alive': bool(d is not None and not d.task.done()),
-                            'stop_requested_at': d.stopper.when if d is not None else None}
+                            'stop_requested_at': d.stopper.when if d is not None else None,
+                            'live_invocations': [{'n': v['n'], 'started': v['started'], 'stop_requested_at': v['flag_at']}
+                                                 for v in self.invs if v['exited'] is None]}
         if not pre.get('in'):
             if d is not None and d.task not in self.tasks:
                 self.tasks.append(d.task)
@@ -322,29 +335,30 @@ class DWorld(tr.World):
         for _ in range(6):
             self.loop.run_until_complete(asyncio.sleep(0))
 
-    def daemon_finish(self) -> None:
+    def daemon_finish(self, oldest_only: bool = False) -> None:
         """The daemon function returns now (if it is of a kind that waits for this)."""
         before = self.dstate()
-        if self.release_evt is not None:
-            self.release_evt.set()
+        live = [v for v in self.invs if v['exited'] is None]
+        for v in (live[:1] if oldest_only else live):
+            v['rel'].set()
         self.spin()
-        self.release_evt = asyncio.Event()
         if before != 'DIdle' and self.dstate() == 'DIdle':
             self.trace.append((self.wrap('LDaemonExit'), self.obs()))
-            self.readable.append({'do': 'daemon_finish', 'from': before})
+        self.readable.append({'do': 'daemon_finish', 'oldest_only': oldest_only, 'from': before, 'to': self.dstate(),
+                              'invocations_alive': [v['n'] for v in self.invs if v['exited'] is None]})
 
     def kill_tasks(self) -> None:
-        if self.release_evt is not None:
-            self.release_evt.set()
-        for t in self.tasks:
-            if not t.done():
-                t.cancel()
-        self.spin()
-        for t in self.tasks:
-            if not t.done():
-                t.cancel()
-        self.spin()
-        self.release_evt = None
+        for v in self.invs:
+            v['rel'].set()
+        for _ in range(3):
+            for t in asyncio.all_tasks(self.loop):
+                if not t.done():
+                    t.cancel()
+            self.spin()
+        now = self.loop.time()
+        for v in self.invs:
+            if v['exited'] is None:
+                v['exited'] = now
 
     def restart(self) -> None:
         self.kill_tasks()
@@ -358,7 +372,38 @@ class DWorld(tr.World):
             self.loop.close()
 
 
+def gen_rematch(r: Any, i: int) -> dict:
+    """The family: a filtered daemon hangs; the object stops matching -> staged stop -> abandoned while alive; the object matches again;
+    the hung task exits later (or not); deletion; the staged stop of whatever runs then."""
+    backoff = r.choice([None, 0, 3])
+    timeout = r.choice([4, 4, 10])
+    bo = backoff or 0
+    acts: list[dict] = [{'do': 'cycle'}, {'do': 'cycle'}, {'do': 'label', 'on': False}, {'do': 'cycle'}]
+    if bo:
+        acts += [{'do': 'tick', 'dt': bo}, {'do': 'cycle'}]
+    acts += [{'do': 'tick', 'dt': timeout}, {'do': 'cycle'}]                      # abandoned, still alive
+    acts += [{'do': 'label', 'on': True}, {'do': 'cycle'}]                       # matches again
+    if r.random() < 0.5:
+        acts += [{'do': 'tick', 'dt': r.choice([1, 2])}, {'do': 'cycle'}]
+    order = r.choice(['exit-then-delete', 'exit-then-delete', 'delete-then-exit', 'no-exit'])
+    if order == 'exit-then-delete':
+        acts += [{'do': 'daemon_finish', 'oldest_only': True}, {'do': 'cycle'}, {'do': 'delete'}, {'do': 'cycle'}]
+    elif order == 'delete-then-exit':
+        acts += [{'do': 'delete'}, {'do': 'cycle'}, {'do': 'daemon_finish', 'oldest_only': True}, {'do': 'cycle'}]
+    else:
+        acts += [{'do': 'delete'}, {'do': 'cycle'}]
+    for dt in [max(bo - 1, 0), 1 if bo else 0, timeout - 1, 1, 2]:
+        if dt:
+            acts.append({'do': 'tick', 'dt': dt})
+        acts.append({'do': 'cycle'})
+    acts += [{'do': 'cycle'}]
+    return {'variant': 'daemon', 'behaviour': 'stubborn', 'backoff': backoff, 'timeout': timeout, 'scripts': {'h:delete': ['ok']},
+            'labelled': True, 'foreign': r.choice([[], ['example.com/a']]), 'actions': acts, 'family': 'rematch:' + order}
+
+
 def gen_scenario(r: Any, i: int) -> dict:
+    if i % 6 == 5:
+        return gen_rematch(r, i)
     variant = ['daemon', 'daemon+h'][i % 2]
     behaviour = BEHAVIOURS[(i // 2) % len(BEHAVIOURS)]
     backoff = r.choice([None, 0, 3, 5])
@@ -377,7 +422,7 @@ def gen_scenario(r: Any, i: int) -> dict:
         elif x < 0.6:
             a = {'do': 'label', 'on': r.random() < 0.5}
         elif x < 0.68:
-            a = {'do': 'daemon_finish'}
+            a = {'do': 'daemon_finish', 'oldest_only': r.random() < 0.3}
         elif x < 0.72:
             a = {'do': 'restart'}
         elif x < 0.8 and not deleted:
@@ -414,7 +459,7 @@ def run_scenario(env: m.Env, sc: dict) -> DWorld:
         elif a['do'] == 'tick':
             w.tick(a['dt'])
         elif a['do'] == 'daemon_finish':
-            w.daemon_finish()
+            w.daemon_finish(bool(a.get('oldest_only')))
         elif a['do'] == 'restart':
             w.restart()
         else:
@@ -433,13 +478,20 @@ def monitors(ctx: fw.Ctx, sc: dict, w: DWorld) -> None:
         if [x for x in fa if x != FIN] != [x for x in fb if x != FIN]:
             ctx.fail('a framework write added, dropped or reordered finalizers owned by others', {**case, 'write': q}, observed=fa, expected=fb,
                      sig='fn-foreign-finalizers')
-        if FIN in fb and FIN not in fa and q['deleting'] and q.get('daemon_alive') and w.mdmn_of(q['labelled_now']):     # a MATCHING daemon
-            waited = q['t'] - q['stop_requested_at'] if q.get('stop_requested_at') is not None else 0
-            if to is None or waited < bo + to:
-                ctx.fail('finalizer removed although the daemon has neither exited nor been abandoned after its timeouts',
-                         {**case, 'write': q, 'backoff': sc['backoff'], 'timeout': to,
-                          'filters_changed_between_decision_and_write': w.mdmn_of(q['labelled_at_decision']) != w.mdmn_of(q['labelled_now'])},
-                         observed={'waited': waited}, sig='released-early-daemon')
+        if FIN in fb and FIN not in fa and q['deleting'] and w.mdmn_of(q['labelled_now']):     # a MATCHING daemon
+            # judged from the real tasks: every invocation of the daemon function that the framework started for this object and that has
+            # not returned must have been told to stop (its own `stopped` flag) at least backoff+timeout ago
+            for v in q.get('live_invocations', []):
+                waited = q['t'] - v['stop_requested_at'] if v['stop_requested_at'] is not None else None
+                if waited is None or to is None or waited < bo + to:
+                    ctx.fail('finalizer removed while a daemon task of this object, started by the framework, is alive and has neither exited nor '
+                             'been abandoned after its own stop request' if waited is not None else
+                             'finalizer removed while a daemon task of this object, started by the framework, is alive and was never told to stop',
+                             {**case, 'write': q, 'invocation': v, 'backoff': sc['backoff'], 'timeout': to,
+                              'filters_changed_between_decision_and_write': w.mdmn_of(q['labelled_at_decision']) != w.mdmn_of(q['labelled_now'])},
+                             observed={'waited': waited}, sig='released-early-daemon')
+                    break
+    ctx.count('dtrace_invocations', str(min(len(w.invs), 4)))
     for x in w.stop_log:
         if x['new_canc'] and x['when'] is not None and x['t'] - x['when'] < bo:
             ctx.fail('a daemon task is cancelled before its cancellation_backoff is over', {**case, 'stop': x}, sig='fn-daemon-cancelled-early')
@@ -474,6 +526,7 @@ def run_traces(ctx: fw.Ctx, env: m.Env, n: int, only: list | None = None) -> lis
                                  diag=f'fd_replay {w.hcfg()} {w.cfg()} {init} {hist} 0'))
             ctx.cov['traces_validated_against_impl'] += 1
             ctx.count('dtrace_variant', f"{sc['variant']}:{sc['behaviour']}")
+            ctx.count('dtrace_family', sc.get('family', 'random'))
             ctx.count('dtrace_timing', f"backoff={sc['backoff']},timeout={sc['timeout']}")
             for x in w.stop_log:
                 ctx.count('dtrace_stop', 'exit-at-flag' if (x['task_done'] and x['new_flag']) else 'exit-at-signal' if (x['task_done'] and x['new_sig'])
